@@ -1056,6 +1056,21 @@ fn family_c12(out: &mut Vec<Case>) {
         let tpl = format!("<v a=\"[{e}]\" b='[{e}]' data-k=\"[{e}]\" u=\"[{e}]{{{{ n }}}}\">[{e}]</v><y>{{{{ n }}}}[{e}]</y>", e = e);
         out.push(c12_case(format!("c12/entity/{}", e), tpl, vec![("r:a", want.clone(), false), ("r:b", want.clone(), false), ("d:k", want.clone(), false), ("r:u", want.clone(), false), ("t", format!("[{w}, {w}]", w = want), true)]));
     }
+    // (B2) an unterminated reference directly in front of what ends or continues the text: another reference, a binding, the closing
+    //      quote, the next tag
+    for stem in ["&a", "&amp", "&Jerry", "&x1", "&1", "&#6", "&#x4", "&#", "&#x", "&", "R&D", "&lt"] {
+        let w0 = ref_decode(stem);
+        let (w_amp, w_num) = (jsstr(&format!("{}&", w0)), jsstr(&format!("{}A", w0)));
+        let w = jsstr(&w0);
+        let tpl = format!(
+            "<v a=\"{s}&amp;\" b=\"{s}\" c='{s}' d=\"{s}&#65;\" u=\"{s}{{{{ n }}}}\" data-k=\"{s}\">{s}</v><y>{s}{{{{ n }}}}</y><z>{s}&#65;</z><p>{s}&amp;</p><q>{s}<i/>{s}</q>",
+            s = stem
+        );
+        out.push(c12_case(format!("c12/unterminated/{}", stem), tpl, vec![
+            ("r:a", w_amp.clone(), false), ("r:b", w.clone(), false), ("r:c", w.clone(), false), ("r:d", w_num.clone(), false), ("r:u", w.clone(), false), ("d:k", w.clone(), false),
+            ("t", format!("[{w}, {w}, {n}, {a}, {w}, {w}]", w = w, n = w_num, a = w_amp), true),
+        ]));
+    }
     // (C) unquoted attribute values
     // (an unquoted value is not WXML; the parser's recovery reads identifier characters only, so only those are enumerated)
     for val in ["abc", "a1", "1", "a-b_c.d", "A", "0x1f", "-", "_"] {
